@@ -46,6 +46,9 @@ func (h *History) source(k int) string {
 	for s := 0; s < nSlots; s++ {
 		fmt.Fprintf(&sb, "var savedFn%d func(int) int\nvar savedM%d func(int) int\n", s, s)
 	}
+	// package-level variables of every kind of type, all declared without an initialiser: a reload keeps their values
+	sb.WriteString("type Shaper interface {\n\tArea() int\n}\n\nfunc (p *Pt) Area() int {\n\treturn p.X * p.Y\n}\n\n")
+	sb.WriteString("var shape Shaper\nvar anyv any\nvar nums []int\nvar tab map[string]int\nvar ratio float64\nvar flag bool\nvar name string\nvar small int8\nvar bt byte\nvar u32 uint32\n")
 	sb.WriteString("\n")
 	pad := func() string {
 		// version-dependent filler so that code lengths differ between versions
@@ -82,6 +85,8 @@ func (h *History) source(k int) string {
 	}
 	sb.WriteString("func NewInst() {\n\tinst = &Obj{N: 0}\n}\n\nfunc Field(a int) {\n\tfmt.Println(\"field\", inst.F(a))\n}\n\n")
 	sb.WriteString("func Bump() {\n\tcounter += 5\n\tinitd += 7\n\tlabel = label + \"+\"\n}\n\nfunc Show() {\n\tfmt.Println(\"state\", counter, initd, label)\n}\n\n")
+	sb.WriteString("func Fill(a int) {\n\tshape = &Pt{X: a, Y: 2}\n\tanyv = a\n\tnums = append(nums, a)\n\tif tab == nil {\n\t\ttab = map[string]int{}\n\t}\n\ttab[\"k\"] = a\n\tratio = float64(a) / 2\n\tflag = true\n\tname = name + \"n\"\n\tsmall += 100\n\tbt += 200\n\tu32 += 4000000000\n}\n\n")
+	sb.WriteString("func ShowAll() {\n\tif shape != nil {\n\t\tfmt.Println(\"shape\", shape.Area())\n\t}\n\tif anyv != nil {\n\t\tfmt.Println(\"any\", anyv)\n\t}\n\tfmt.Println(\"all\", shape == nil, anyv == nil, nums, len(nums), len(tab), tab[\"k\"], ratio, flag, name, small, bt, u32)\n}\n\n")
 	sb.WriteString("func MakePt() {\n\tpt = &Pt{X: 1, Y: 2, Name: \"p\"}\n}\n\nfunc ShowPt() {\n\tfmt.Println(pt, pt.X+pt.Y)\n}\n")
 	return sb.String()
 }
@@ -95,7 +100,15 @@ func genHistory(rt *rapid.T) *History {
 	n := rx.Range(rt, "steps", 3, 40)
 	for i := 0; i < n; i++ {
 		arg := rx.Range(rt, "arg", 1, 9)
-		switch rx.Weighted(rt, "op", 6, 5, 5, 5, 4, 4, 4, 3, 3, 3, 2, 2, 2) {
+		switch rx.Weighted(rt, "op", 6, 5, 5, 5, 4, 4, 4, 3, 3, 3, 2, 2, 2, 3, 3) {
+		case 13:
+			h.Ops = append(h.Ops, Op{Op: "fill", Arg: arg})
+			continue
+		case 14:
+			h.Ops = append(h.Ops, Op{Op: "showall"})
+			continue
+		}
+		switch rx.Weighted(rt, "op2", 6, 5, 5, 5, 4, 4, 4, 3, 3, 3, 2, 2, 2) {
 		case 0:
 			if rx.Chance(rt, "sameversion", 1, 4) {
 				h.Ops = append(h.Ops, Op{Op: "load", K: k}) // identical source
@@ -166,7 +179,7 @@ func genHistory(rt *rapid.T) *History {
 			}
 		}
 	}
-	h.Ops = append(h.Ops, Op{Op: "show"})
+	h.Ops = append(h.Ops, Op{Op: "show"}, Op{Op: "showall"})
 	return h
 }
 
@@ -187,6 +200,8 @@ type model struct {
 		o *inst
 		m int
 	}
+	fills []int // arguments of the Fill calls so far
+	filledAt int // version loaded at the last Fill
 }
 
 func check(h *History) (f *ev.Failure) {
@@ -274,6 +289,23 @@ func check(h *History) (f *ev.Failure) {
 		case "show":
 			call("Show")
 			want = fmt.Sprintf("state %d %d %s\n", m.counter, m.initd, m.label)
+		case "fill":
+			call("Fill", op.Arg)
+			m.fills = append(m.fills, op.Arg)
+			m.filledAt = m.k
+		case "showall":
+			call("ShowAll")
+			if n := len(m.fills); n > 0 {
+				a := m.fills[n-1]
+				want = fmt.Sprintf("shape %d\nany %d\n", a*2, a)
+				want += fmt.Sprintln("all", false, false, m.fills, n, 1, a, float64(a)/2, true, strings.Repeat("n", n), int8(100*n), uint8(200*n), uint32(4000000000*uint64(n)))
+				if m.filledAt < m.k {
+					nontrivial = true
+					ev.R().Class("uninitialised_globals_of_all_types_read_after_reload")
+				}
+			} else {
+				want = fmt.Sprintln("all", true, true, []int{}, 0, 0, 0, float64(0), false, "", int8(0), uint8(0), uint32(0))
+			}
 		case "makept":
 			call("MakePt")
 		case "showpt":
